@@ -27,14 +27,18 @@ NONE  == Len(Cat)
 
 (* ------------------------------------------------------------------ l2t *)
 LabelModes == <<[label |-> "dog", empties |-> <<>>], [label |-> "__empty__", empties |-> <<>>],
-                [label |-> "NA", empties |-> <<<<"NA", "none">>>>], [label |-> "__empty__", empties |-> <<<<"NA", "none">>>>]>>
+                [label |-> "NA", empties |-> <<<<"NA", "none">>>>], [label |-> "__empty__", empties |-> <<<<"NA", "none">>>>],
+                \* labels with surrounding whitespace: the label, unchanged, is the value ("with the label as value")
+                [label |-> " dog", empties |-> <<>>], [label |-> "song\n", empties |-> <<>>], [label |-> " ", empties |-> <<>>],
+                [label |-> "\tcall ", empties |-> <<>>]>>
 ListOpts == IF Quick THEN {FALSE} ELSE BOOLEAN
 L2tCases == {[kind |-> "l2t", lm |-> m, fn |-> f, termmap |-> a, tagmap |-> b, keymap |-> d, key |-> k, term |-> t, fb |-> fb,
               fnlist |-> fl, tagmaplist |-> ~fl] :
              m \in 1..Len(LabelModes), f \in Tri, a \in Tri, b \in Tri, d \in Tri, k \in Opt({"K"}), t \in Opt({"T"}),
              fb \in Opt({"FB"}), fl \in ListOpts}
 \* quick: for the two empty-label modes the mappings do not matter (LawEmptyWins); keep a slice
-L2tKeep(k) == (Quick /\ k.lm \in {2, 3}) => (k.termmap = "a" /\ k.keymap = "a" /\ k.fb = <<>>)
+L2tKeep(k) == /\ (Quick /\ k.lm \in {2, 3}) => (k.termmap = "a" /\ k.keymap = "a" /\ k.fb = <<>>)
+              /\ (k.lm > 4) => (k.fn = "a" /\ k.tagmap = "a" /\ k.fb = <<>> /\ (Quick => (k.termmap # "m" /\ k.keymap # "m")))
 ToOf(k) == [label |-> LabelModes[k.lm].label, empties |-> LabelModes[k.lm].empties, fn |-> k.fn, termmap |-> k.termmap,
             tagmap |-> k.tagmap, keymap |-> k.keymap, key |-> k.key, term |-> k.term, fb |-> k.fb,
             fnlist |-> k.fnlist, tagmaplist |-> k.tagmaplist]
@@ -42,9 +46,10 @@ ToOf(k) == [label |-> LabelModes[k.lm].label, empties |-> LabelModes[k.lm].empti
 (* ------------------------------------------------------------ t2l / t1l *)
 TA == <<"animal", "dog", "k">>   TB == <<"sex", "male", "k">>   TC == <<"animal", "cat", "k">>
 \* tags whose term is NOT the simple key-term: hand-built Term labelled "animal"; the vocabulary term labelled "Common Name"
+TW == <<"animal", " dog \n", "k">>       \* a tag value with surrounding whitespace
 TAh == <<"animal", "wolf", "h">>   TVv == <<"Common Name", "fox", "v">>   TVk == <<"Common Name", "hare", "k">>
 TagLists == <<<<>>, <<TA>>, <<TA, TB>>, <<TB, TC, TA>>, <<TB, TC>>,
-              <<TAh>>, <<TAh, TC>>, <<TC, TAh>>, <<TVv>>, <<TVv, TVk>>, <<TVk, TVv>>, <<TB, TVv, TAh>>>>
+              <<TAh>>, <<TAh, TC>>, <<TC, TAh>>, <<TVv>>, <<TVv, TVk>>, <<TVk, TVv>>, <<TB, TVv, TAh>>, <<TW>>, <<TW, TA>>>>
 OldLists == 5
 IdxVals  == IF Quick THEN {-3, -1, 0, 2, 5} ELSE -7..7
 T2lCases == {[kind |-> "t2l", tl |-> tl, seqfn |-> sf, sel |-> s, idx |-> ix, sep |-> sp, empty |-> em, fn |-> fn, map |-> mp, vo |-> vo] :
@@ -60,7 +65,7 @@ LoOf(k) == [seqfn |-> k.seqfn, sel |-> k.sel, idx |-> k.idx, sep |-> k.sep, empt
             fn |-> k.fn, map |-> k.map, vo |-> k.vo]
 T1lCases == {[kind |-> "t1l", tag |-> t, lo |-> [seqfn |-> FALSE, sel |-> <<>>, idx |-> <<>>, sep |-> <<>>, empty |-> <<>>,
                                                   kvsep |-> ks, fn |-> fn, map |-> mp, vo |-> vo]] :
-             t \in {TA, TB, TC, TAh, TVv}, ks \in Opt({"=", ""}), fn \in BOOLEAN, mp \in Tri, vo \in {"a", "t", "f"}}
+             t \in {TA, TB, TC, TAh, TVv, TW}, ks \in Opt({"=", ""}), fn \in BOOLEAN, mp \in Tri, vo \in {"a", "t", "f"}}
 
 (* ------------------------------------------------------------------ imp *)
 TimeTicks == {0, 8, 24, 40, 64}
@@ -84,7 +89,8 @@ ImpLists == {[kind |-> "impl", via |-> v, sr |-> 8, te |-> te, mode |-> m, ix |-
              v \in {"sequence", "annot_seq", "annot_bbox"}, te \in {<<1, 1>>, <<4, 1>>, <<1, 2>>}, m \in {"sec", "both", "smp"}, l \in Lists(4)}
 ImpListKeep(k) == /\ (k.via = "annot_bbox" => k.mode = "sec") /\ (k.via = "annot_seq" => Len(k.ix) > 0)
                   /\ (Quick /\ k.te = <<1, 1>> /\ k.via # "annot_bbox") => k.mode = "smp"
-Lab(j) == "L" \o ToString(j)
+\* labels of list elements: distinct, two of them differing only by surrounding whitespace
+Lab(j) == CASE j = 2 -> " L1" [] j = 3 -> "L3 \n" [] OTHER -> "L" \o ToString(j)
 El(mode, a, f, lab) == [sec |-> IF mode = "smp" THEN <<>> ELSE <<a[1], a[2]>>,
                         smp |-> IF mode = "smp" THEN <<a[1], a[2]>> ELSE IF mode = "both" THEN <<7, 9>> ELSE <<>>,
                         frq |-> f, label |-> lab]
